@@ -1,8 +1,10 @@
 use crate::framework::Monitor;
 
 pub mod behav;
+pub mod c02;
 pub mod c12;
 pub mod exec;
+pub mod textmon;
 pub mod triggers;
 
 pub fn make(id: &str) -> Option<Box<dyn Monitor>> {
@@ -11,6 +13,9 @@ pub fn make(id: &str) -> Option<Box<dyn Monitor>> {
         "C06" => Some(Box::new(behav::Behav::new(behav::Kind::C06))),
         "C16" => Some(Box::new(behav::Behav::new(behav::Kind::C16))),
         "C17" => Some(Box::new(behav::Behav::new(behav::Kind::C17))),
+        "C02" => Some(Box::new(c02::C02::default())),
+        "C03" => Some(Box::new(textmon::C03::default())),
+        "C18" => Some(Box::new(textmon::C18::default())),
         "C12" => Some(Box::new(c12::C12::default())),
         _ => None,
     }
